@@ -56,7 +56,7 @@ func (s *Sim) traceStep(o *Op, prevHandles int) string {
 	}
 	d := b.W.DumpEntities()
 	fmt.Fprintf(&sb, "dump %v %v %d %d\n", d.Entities, d.Alive, d.Next, d.Available)
-	if HooksEnabled {
+	if HooksEnabled && !s.Cfg.TraceNoShape {
 		h := fnv.New64a()
 		h.Write([]byte(Shape(b.W)))
 		fmt.Fprintf(&sb, "shape %x\n", h.Sum64())
